@@ -346,6 +346,9 @@ func check05(c *Case, o *Obs, rec Rec) (vs []viol, inconclusive string) {
 	if c.Kind == "C05ctx" {
 		gen = "ctx-done"
 	}
+	if c.Route != "" {
+		gen = "http-shape," + ctClass(c.ReqCT) + "," + acceptClass(c.Accept)
+	}
 	pv, stop := panicViols(c, o, gen)
 	vs = append(vs, pv...)
 	if o.Wedged && len(pv) == 0 {
